@@ -445,6 +445,7 @@ PROPS = {
     },
     "C20": {
         "driver": "c20",
+        "grammar_deviations": True,
         "files": ["a2lfile/src/specification.rs", "a2lfile/src/specification_orig.rs", "a2lmacros/src/lib.rs", "a2lmacros/src/a2lspec.rs", "a2lmacros/src/codegenerator.rs",
                   "a2lmacros/src/codegenerator/parser.rs", "a2lmacros/src/codegenerator/writer.rs", "a2lmacros/src/codegenerator/data_structure.rs"],
         "trusted": T_STD + ["rustfmt and proc_macro2's fallback implementation (the in-tree generator is run as a test of the scratch copy of a2lmacros, outside the compiler)",
@@ -464,6 +465,9 @@ PROPS = {
             {"engine": "E2", "module": "lib", "harness": "h_c20_every_element", "functions": ["specification::*::parse / stringify of every element of the grammar (generated document)", "load_from_string", "A2lFile::write_to_string"],
              "bound": "the every-element document generated from the DSL (203 of 205 grammar elements), strict / non-strict: diagnostics, written text and every data field of the model (generated fingerprint)", "timeout": 900, "extra_modules": ["tokenizer"], "max_steps": 300000000, "validate": 2,
              "must_cover": ["generated document and fingerprint module are in place"]},
+            {"engine": "E2", "module": "lib", "harness": "h_c20_versions", "quick": False, "functions": ["specification::*::parse of every version-gated element", "parser::ParserState::check_block_version_lower", "parser::ParserState::check_enumitem_version_lower"],
+             "bound": "101 version-gated documents of the reference grammar x file version symbolic over the six ASAP2 versions x strict / non-strict, observed on both builds", "timeout": 900, "extra_modules": ["tokenizer"], "max_steps": 6000000, "validate": 10,
+             "must_cover": ["version-open documents are in place"]},
             {"engine": "E2", "module": "lib", "harness": "h_c20_module_ops", "functions": ["A2lFile::check", "A2lFile::merge_modules", "A2lFile::cleanup", "generated PartialEq / A2lObjectName impls"],
              "bound": "merge template merged with a renamed copy of itself, then cleanup (1 concrete path)", "timeout": 600, "extra_modules": ["tokenizer"], "max_steps": 80000000, "validate": 1},
         ],
